@@ -18,7 +18,15 @@ def rand_asg(rng, n, maxvar):
 def gen_mtbdd_history(rng, nsteps, full):
     live = {}          # handle -> conservative upper bound of the highest variable the function depends on (-1: constant)
     steps = []
+    reuse = rng.random() < 0.5
     for _ in range(nsteps):
+        if steps and steps[-1][0] in ("apply1", "apply2", "apply3", "project") and rng.random() < 0.2:
+            # ask again: the result is destroyed (or an operand handle re-assigned to another value and back) and the very
+            # same call is made again on the same handle objects
+            last = steps[-1]
+            steps.append(["destroy", last[1]])
+            steps.append(list(last))
+            continue
         dead = [h for h in range(NH) if h not in live]
         r = rng.random()
         if not live or (dead and r < 0.22):
@@ -85,7 +93,10 @@ def gen_mtbdd_history(rng, nsteps, full):
                 off = rng.randint(0, W)
                 steps.append(["prefix", d, h, [rng.choice([0, 1, 2]) for _ in range(W - off + rng.randint(0, 1))], off])
                 live[d] = min(live[h], off - 1)
-    return {"op": "mtbdd", "W": W, "steps": steps, "sz": not full}
+    c = {"op": "mtbdd", "W": W, "steps": steps, "sz": not full}
+    if reuse:
+        c["reuse"] = True       # one functor object per operation for the whole history (see harness/ops_mtbdd.cc)
+    return c
 
 
 def run_mtbdd(res, rd, name, cases):
